@@ -126,7 +126,7 @@ func runOnce(src string, deadline time.Duration, tickLimit int64) *runResult {
 	wdDone := make(chan struct{})
 	go func() {
 		defer close(wdDone)
-		t := time.NewTimer(200 * time.Millisecond)
+		t := time.NewTimer(100 * time.Millisecond)
 		defer t.Stop()
 		hits := 0
 		for {
@@ -146,7 +146,7 @@ func runOnce(src string, deadline time.Duration, tickLimit int64) *runResult {
 					cancel()
 					return
 				}
-				t.Reset(100 * time.Millisecond)
+				t.Reset(50 * time.Millisecond)
 			}
 		}
 	}()
